@@ -60,9 +60,11 @@ enum Family {
     SummaryEvents,
     SummaryEventsWithLocals,
     LivenessEvents,
+    ScopesWithStatements,
 }
 
-const FAMILIES: [Family; 9] = [
+const FAMILIES: [Family; 10] = [
+    Family::ScopesWithStatements,
     Family::SummaryEvents,
     Family::SummaryEventsWithLocals,
     Family::LivenessEvents,
@@ -86,6 +88,7 @@ impl Family {
             Family::SummaryEvents => "summary-events",
             Family::SummaryEventsWithLocals => "summary-events-functions-with-a-local-each",
             Family::LivenessEvents => "liveness-events",
+            Family::ScopesWithStatements => "scopes-each-holding-a-statement",
         }
     }
     fn upper(self) -> usize {
@@ -99,11 +102,12 @@ impl Family {
             Family::SummaryEvents => 6_000,
             Family::SummaryEventsWithLocals => 4_000,
             Family::LivenessEvents => 8_000,
+            Family::ScopesWithStatements => 140_000,
         }
     }
     /// expensive families (hundreds of thousands of statements)
     fn heavy(self) -> bool {
-        matches!(self, Family::Statements | Family::TotalBlocks | Family::Locals | Family::Scopes | Family::Calls)
+        matches!(self, Family::Statements | Family::TotalBlocks | Family::Locals | Family::Scopes | Family::Calls | Family::ScopesWithStatements)
     }
     /// (program text, expected printed numbers before the tail's 8, harness's own count of the family's primary metric)
     fn build(self, n: usize) -> (String, Vec<f64>, Option<(&'static str, u64)>) {
@@ -199,6 +203,15 @@ impl Family {
                 for k in 0..n {
                     s.push_str(&format!("make v{k} get {k}\n"));
                 }
+            }
+            Family::ScopesWithStatements => {
+                // the memory-hungriest shape near the limits: two statements and a scope per line
+                s.push_str("make acc get 1\n");
+                for _ in 0..n {
+                    s.push_str("start acc get acc add 1 end\n");
+                }
+                s.push_str("shout(acc)\n");
+                out.push(n as f64 + 1.0);
             }
         }
         s.push_str(TAIL);
@@ -340,6 +353,7 @@ impl Space for LimitSpace {
             Family::SummaryEvents => (caps.max_summary_events as f64).sqrt() as usize - 3,
             Family::SummaryEventsWithLocals => (caps.max_summary_events as f64 / 3.0).sqrt() as usize - 2,
             Family::LivenessEvents => (caps.max_liveness_events as f64).sqrt() as usize - 3,
+            Family::ScopesWithStatements => caps.max_scopes as usize - 3,
         }
         .clamp(2, fam.upper());
         let (mut lo, mut hi);
@@ -474,7 +488,16 @@ impl Space for LimitSpace {
         }
         // --- the shipped binary with its real arena sizes (thinned: below and at the flip)
         let mut cli_runs = 0u64;
-        let cli_sizes: Vec<usize> = if self.thorough || !fam.heavy() { vec![flip - 1, flip] } else { vec![] };
+        // the scopes-with-statements family goes through the shipped binary in the quick tier too:
+        // it is the one that needs the most memory just below and at its limit
+        let cli_sizes: Vec<usize> = if fam == Family::ScopesWithStatements {
+            // ... and a little further over the limit (being over a limit by 3 % is no reason to abort)
+            vec![flip - 1, flip, flip + 4096]
+        } else if self.thorough || !fam.heavy() {
+            vec![flip - 1, flip]
+        } else {
+            vec![]
+        };
         for &n in &cli_sizes {
             let (src, want_out, _) = fam.build(n);
             let r = cli::run(Build::Release, Input::File(&src), None, Duration::from_secs(600));
